@@ -15,19 +15,31 @@ def pool_index(us, terms):
     return [pos[key(t)] for t in terms]
 
 
-def expected_records(uni, us, states):
+NONE_TERM = {"op": "none", "sl": [], "ch": []}
+
+
+def expected_records(uni, us, states, matches=False):
     recs = []
     for s in states:
-        recs.append({"key": s["key"], "lab": s["plab"],
-                     "slots": s["slots"], "syms": s["syms"], "pleaf": s["pleaf"], "psize": s["psize"]})
+        r = {"key": s["key"], "lab": s["plab"],
+             "slots": s["slots"], "syms": s["syms"], "pleaf": s["pleaf"], "psize": s["psize"]}
+        if matches:
+            # expected match sets (EMatch.tla) with every class label replaced by its universe term
+            r["mtt"] = [[[us[l - 1] if l else NONE_TERM for l in tup] for tup in pm] for pm in s["mt"]]
+            r["nored"] = s["nored"]
+        else:
+            r["mtt"] = []
+            r["nored"] = False
+        recs.append(r)
     return recs
 
 
-def run_one(tag, uni, us, states, maxeqs, policy, eager, workers=4, timeout=1500, analysis="none"):
+def run_one(tag, uni, us, states, maxeqs, policy, eager, workers=4, timeout=1500, analysis="none", pats=None):
     cfg = open(os.path.join(SPEC, "MC_EGraphOp.cfg")).read()
     defs = {"MCOpTermPool": uni["terms"], "MCOpEqPool": uni["eqs"], "MCOpInsBase": tla_set(uni["base"]),
-            "MCOpMaxEqs": maxeqs, "MCExpected": tla_set(expected_records(uni, us, states)),
-            "MCOpEager": eager, "MCPolicy": policy, "MCAnalysis": analysis}
+            "MCOpMaxEqs": maxeqs, "MCExpected": tla_set(expected_records(uni, us, states, matches=bool(pats))),
+            "MCOpEager": eager, "MCPolicy": policy, "MCAnalysis": analysis,
+            "MCOpPatterns": pats or [], "MCOpN": uni["N"]}
     logp, st = run_tlc_root(tag, "MC_EGraphOp", defs, cfg, workers=workers, timeout=timeout, xss=True)
     bad = list(tlcout.tagged_lines(logp, "OPBAD"))
     return logp, st, bad
@@ -73,6 +85,45 @@ def run_tier(tier, tables, tag, only=None):
                     "its analysis data (update_analysis, pending entries of type full / only, join in move_to; leaf operators with fifo, smallest size "
                     "with lifo) are the least fixpoints LeafOps / MinCost(astsize) of SlottedCC.tla, "
                     "satisfies the structural invariants of check.rs and keeps old handles valid",
+            "runs": res, "states": sum(r["states"] for r in res.values())}
+
+
+MATCH_UNIVERSES = {"quick": {"U1": 1, "U3": 1, "U4": 1, "U11": 1, "U13": 2},
+                   "thorough": {"U1": 2, "U3": 1, "U4": 2, "U5": 2, "U10": 2, "U11": 2, "U13": 2, "U14": 2}}
+
+
+def run_matches(tier, tables, tag):
+    """design-level refinement EMatchOp => EMatch: on every reachable quiescent state of EGraphOp (lazy insertion, fifo) that is in
+    the scope of the comparison the operational e-matcher computes exactly the declarative match sets that the MC_CC run emitted
+    (and that the real ematch_all is compared with).  A disagreement is a tool error."""
+    import concurrent.futures
+    import cc
+    sys.path.insert(0, UNIV)
+    import patterns
+    jobs = [(u, me) for u, me in MATCH_UNIVERSES[tier].items() if u in tables]
+    res = {}
+
+    def one(j):
+        u, me = j
+        uni, tpath, st, states, upath = tables[u]
+        us = json.load(open(tpath))["us"]
+        pats = [patterns.parse_pattern(p) for p in cc.pattern_pool(uni)]
+        sts = [s for s in states if len(s["key"]) <= me]
+        return j, len(pats), sum(1 for s in sts if s["nored"]), sum(len(m) for s in sts if s["nored"] for m in s["mt"]), \
+            run_one("%s_ematchop_%s" % (tag, u), uni, us, sts, me, "fifo", False, workers=4, timeout=3000, pats=pats)
+    t0 = time.time()
+    with concurrent.futures.ThreadPoolExecutor(max_workers=4) as ex:
+        for (u, me), npat, nin, nexp, (logp, st, bad) in ex.map(one, jobs):
+            require_tlc_ok(st, logp, "MC_EGraphOp(matches)/" + u)
+            if bad:
+                raise ToolError("the operational e-matcher EMatchOp.tla disagrees with EMatch.tla on %s: %s" % (u, json.dumps(bad[0])[:400]))
+            res["%s/<=%d eqs" % (u, me)] = {"states": st["distinct"], "states_in_scope": nin, "patterns": npat,
+                                           "declarative_matches_in_scope": nexp, "wall_s": st["wall_s"]}
+    log("EMatchOp refines EMatch: %d model runs, %d states, %.1fs" % (len(res), sum(r["states"] for r in res.values()), time.time() - t0))
+    return {"what": "design level: on every reachable quiescent state of the operational e-graph model (spec/EGraphOp.tla, lazy insertion) "
+                    "the operational e-matcher spec/EMatchOp.tla (enodes_applied, ematch_impl, ematch_node with group variants and the "
+                    "partial slot bijection, final_subst, ematch_all) computes exactly the declarative match sets of spec/EMatch.tla: every "
+                    "computed substitution, grounded in the name pool, is a member, and every member is computed (states without redundant slots)",
             "runs": res, "states": sum(r["states"] for r in res.values())}
 
 
